@@ -24,7 +24,8 @@ Ev == Trace[l]
 Absent == [exists |-> FALSE]
 Chk(ok, guard, sig) == IF ok THEN <<>> ELSE <<[line |-> l, guard |-> guard, sig |-> sig]>>
 
-NoRec == [ctrl |-> "-", object |-> "-", provList |-> "none", listed |-> {}, lookOk |-> {}, lookErr |-> {}, ice |-> FALSE]
+NoRec == [ctrl |-> "-", object |-> "-", provList |-> "none", listed |-> {}, getGone |-> {}, lookErr |-> {}, nodeReadErr |-> FALSE,
+          ice |-> FALSE]
 St0(cfg) == [cfg |-> cfg, claims |-> <<>>, nodes |-> <<>>, rec |-> NoRec]
 
 TraceInit == l = 1 /\ st = St0(Absent) /\ viol = <<>> /\ ntr = 0 /\ done = FALSE
@@ -48,10 +49,14 @@ DeleteChecks(c, t) ==
     IF Ev.actor = ExpActor
       THEN Chk(G_C16_Expiration(c, t), "G_C16_Expiration", SigExpiration(c, t))
     ELSE IF Ev.actor = GcActor
-      THEN LET ok == st.rec.provList = "ok"
-               lk == c.providerID \in st.rec.lookOk /\ c.providerID \notin st.rec.lookErr
-           IN Chk(G_C16_GarbageCollection(c, ok, st.rec.listed, lk, st.nodes), "G_C16_GarbageCollection",
-                  SigGarbageCollection(c, ok, st.rec.listed, lk, st.nodes))
+      THEN LET \* the provider said so in this reconcile: a successful List without the instance, or a Get answered NotFound
+               gone == c.providerID \in st.rec.getGone
+               ok == st.rec.provList = "ok" \/ gone
+               lst == IF gone THEN {} ELSE st.rec.listed
+               \* no Node read that concerns this claim failed in this reconcile (whatever way the controller looks the Node up)
+               lk == c.providerID \notin st.rec.lookErr /\ ~st.rec.nodeReadErr
+           IN Chk(G_C16_GarbageCollection(c, ok, lst, lk, st.nodes), "G_C16_GarbageCollection",
+                  SigGarbageCollection(c, ok, lst, lk, st.nodes))
     ELSE IF Ev.actor = LiveActor
       THEN (IF st.rec.ice THEN <<>>       \* capacity error: the launch path's delete, judged by C14
             ELSE Chk(G_C16_Liveness(c, t, st.cfg.launchTimeout, st.cfg.regTimeout), "G_C16_Liveness", SigLiveness(c)))
@@ -91,19 +96,24 @@ TProv ==
     /\ Ev.e = "Prov"
     /\ LET isList == Ev.call = "List" /\ Ev.actor = st.rec.ctrl
            isCreate == Ev.call = "Create"
+           getGone == Ev.call = "Get" /\ Ev.actor = st.rec.ctrl /\ Ev.err = "NotFound"
        IN st' = [st EXCEPT !.rec.provList = IF isList THEN (IF Ev.err = "-" THEN "ok" ELSE "err") ELSE @,
+                           !.rec.getGone = IF getGone THEN @ \cup {Ev.arg} ELSE @,
                            !.rec.listed = IF isList /\ Ev.err = "-"
                                           THEN {Ev.post[i].pid : i \in {j \in DOMAIN Ev.post : Ev.post[j].state # "gone"}}
                                           ELSE IF isList THEN {} ELSE @,
                            !.rec.ice = @ \/ (isCreate /\ Ev.err \in {"ICE", "NCNR"})]
     /\ UNCHANGED viol
 
-\* reads: Node lookups by provider id are attributed (name = the provider id); other reads are logged only when injected
+\* reads: a failed Node read of the reconcile in progress establishes nothing about the Nodes it concerns - the provider id
+\* it was addressed to (lookups by provider id are attributed: name = the provider id), the named Node's provider id, or,
+\* when the read is not attributable (name "-"), every Node
 TRead ==
     /\ Ev.e = "Read"
-    /\ LET look == Ev.kind = "Node" /\ Ev.verb = "list" /\ Ev.name # "-" /\ Ev.actor = st.rec.ctrl
-       IN st' = [st EXCEPT !.rec.lookOk = IF look /\ Ev.err = "-" THEN @ \cup {Ev.name} ELSE @,
-                           !.rec.lookErr = IF look /\ Ev.err # "-" THEN @ \cup {Ev.name} ELSE @]
+    /\ LET mine == Ev.kind = "Node" /\ Ev.actor = st.rec.ctrl /\ Ev.err # "-"
+           pid == IF Ev.name \in DOMAIN st.nodes THEN st.nodes[Ev.name].providerID ELSE Ev.name
+       IN st' = [st EXCEPT !.rec.lookErr = IF mine /\ Ev.name # "-" THEN @ \cup {pid} ELSE @,
+                           !.rec.nodeReadErr = @ \/ (mine /\ Ev.name = "-")]
     /\ UNCHANGED viol
 
 TBegin == /\ Ev.e = "Begin"
